@@ -888,8 +888,8 @@ def sweep_groups(root: int, n_groups: int) -> list:
             grouped = r
             break
     groups = [("single-vs-single", SA, SB), ("multi-vs-figure", MA, FB), ("figure-overlap", FA, FB),
-              ("equal-valued", SB, _json.loads(_json.dumps(SB))), ("multi-vs-multi", MA, MB),
-              ("single-vs-failing", SA, failing or SB), ("grouped-vs-single", grouped or MB, SA),
+              ("equal-valued", SB, _json.loads(_json.dumps(SB))), ("single-vs-failing", SA, failing or SB),
+              ("multi-vs-multi", MA, MB), ("grouped-vs-single", grouped or MB, SA),
               ("figure-vs-single", FA, SB)]
     return groups[:n_groups]
 
@@ -973,8 +973,8 @@ def sweep_jobs(root: int, groups: list, refcache: RefCache, specs: list, hot_inf
 # batch
 # --------------------------------------------------------------------------
 
-TIERS = {"quick": {"runs": 1200, "wall": 420.0, "groups": 4, "hot_cap": 600, "hot3_cap": 100,
-                   "sweeps": [(0, "call", 16), (1, "call", 16), (2, "call", 6), (3, "call", 16),
+TIERS = {"quick": {"runs": 1200, "wall": 420.0, "groups": 5, "hot_cap": 600, "hot3_cap": 100,
+                   "sweeps": [(0, "call", 16), (1, "call", 16), (2, "call", 6), (3, "call", 16), (4, "call", 16),
                               (0, "line", 96)]},
          "thorough": {"runs": 60000, "wall": 3000.0, "groups": 8, "hot_cap": 4000, "hot3_cap": 2500,
                       "sweeps": [(i, "callret", 1) for i in range(8)] + [(i, "line", 4) for i in range(8)]}}
